@@ -7,7 +7,7 @@ registry.
 import ast
 
 from sa.model import AnalysisError, walk_no_nested, norm, call_name, stmt_of, mangle
-from sa.util import const_value, bound_arg
+from sa.util import const_value, bound_arg, attr_writes
 from sa.consteval import TOP, Evaluator
 from .proles import ParserRoles
 from .c07 import tag_bindings, bound_arg_fn
@@ -208,6 +208,10 @@ def h1(ctx, R, only=None):
             ctx.holds("H1", "command namespace written by %s (configuration, C20)" % f.qualname)
         elif f is R.add_commands and R.command_namespace() == ("registry", target) and how == "subscript store":
             ctx.holds("H1", "command registry %s written by %s (configuration, C20)" % (target, f.qualname))
+        elif how == "subscript store" and _class_keyed_memo(prog, f, st, target):
+            ctx.holds("H1", "%s in %s: a memo keyed by the class of the object, of values computed from class-level attributes only" % (target, f.qualname))
+        elif f is R.add_commands and _of_registered_object(f, st):
+            ctx.holds("H1", "%s sets %s on the class being registered (configuration, C20; rule Y4 keeps the definition as written)" % (f.qualname, target))
         else:
             ctx.violation("H1", f, "shared-write:%s" % target, "process-shared object %s is modified in %s (%s): %s" % (
                 target, f.qualname, how, norm(st)[:70]), node=st,
@@ -217,6 +221,90 @@ def h1(ctx, R, only=None):
               % (len(objs), len(objs) - min(nwritable, len(objs))))
     ctx.extra["shared_objects"] = sorted(q for _, _, q, _ in objs)
 
+
+
+def _class_keyed_memo(prog, f, st, target):
+    """st is `TABLE[type(p)] = V` (p a parameter) where V is computed from class-level attributes of p only: every instance of a class gets
+    the same entry, whatever was computed before - the table is a cache of pure facts about classes, not state."""
+    if not (isinstance(st, ast.Assign) and len(st.targets) == 1 and isinstance(st.targets[0], ast.Subscript)
+            and isinstance(st.targets[0].value, ast.Name) and st.targets[0].value.id == target):
+        return False
+    k = st.targets[0].slice
+    if isinstance(k, ast.Call) and isinstance(k.func, ast.Name) and k.func.id == "type" and len(k.args) == 1 and isinstance(k.args[0], ast.Name):
+        pn = k.args[0].id
+    elif isinstance(k, ast.Attribute) and k.attr == "__class__" and isinstance(k.value, ast.Name):
+        pn = k.value.id
+    else:
+        return False
+    if pn not in f.params:
+        return False
+    # backward slice of the stored value
+    need = {n.id for n in ast.walk(st.value) if isinstance(n, ast.Name)}
+    stmts = []
+    grew = True
+    while grew:
+        grew = False
+        for n in walk_no_nested(f.node):
+            tg = None
+            if isinstance(n, ast.Assign):
+                tg = {x.id for t in n.targets for x in ast.walk(t) if isinstance(x, ast.Name) and isinstance(x.ctx, ast.Store)}
+                src = [n.value]
+            elif isinstance(n, ast.AugAssign) and isinstance(n.target, ast.Name):
+                tg, src = {n.target.id}, [n.value]
+            elif isinstance(n, ast.For):
+                tg = {x.id for x in ast.walk(n.target) if isinstance(x, ast.Name)}
+                src = [n.iter]
+            elif isinstance(n, ast.Expr) and isinstance(n.value, ast.Call) and isinstance(n.value.func, ast.Attribute) \
+                    and isinstance(n.value.func.value, ast.Name) and n.value.func.attr in MUTATORS:
+                tg, src = {n.value.func.value.id}, list(n.value.args)
+            if tg and tg & need and n not in stmts and n is not st:
+                stmts.append(n)
+                new = {x.id for e_ in src for x in ast.walk(e_) if isinstance(x, ast.Name)} - need
+                if new:
+                    need |= new
+                    grew = True
+                else:
+                    grew = True if len(stmts) and False else grew
+    reads = set()
+    for n in stmts + [st]:
+        exprs = [n.iter] if isinstance(n, ast.For) else [n]
+        for e_ in exprs:
+            for x in ast.walk(e_):
+                if isinstance(x, ast.Name) and x.id == pn and isinstance(x.ctx, ast.Load):
+                    par = getattr(x, "_parent", None)
+                    if isinstance(par, ast.Attribute) and par.value is x and isinstance(par.ctx, ast.Load):
+                        if not (isinstance(getattr(par, "_parent", None), ast.Call) and par._parent.func is par):
+                            reads.add(par.attr)
+                            continue
+                    if isinstance(par, ast.Call) and isinstance(par.func, ast.Name) and par.func.id == "type":
+                        continue
+                    return False  # the object itself (or a method of it) takes part in the value
+    if not reads:
+        return False
+    for a in reads:
+        if a == "__class__":
+            continue
+        cls_level = any(a in c.attrs for c in prog.all_classes())
+        inst = [w for w in attr_writes(prog, a) if w[0].cls is not None and w[0].params and isinstance(w[1], ast.Attribute)
+                and isinstance(w[1].value, ast.Name) and w[1].value.id == w[0].params[0] and "classmethod" not in w[0].decorators]
+        if not cls_level or inst:
+            return False
+    return True
+
+
+def _of_registered_object(f, st):
+    """st assigns an attribute of the object add_commands is registering (its parameter, or the variable of a loop over it)."""
+    if not isinstance(st, ast.Assign) or len(st.targets) != 1 or not isinstance(st.targets[0], ast.Attribute) \
+            or not isinstance(st.targets[0].value, ast.Name):
+        return False
+    v = st.targets[0].value.id
+    params = set(f.params)
+    if v in params:
+        return True
+    for lp in walk_no_nested(f.node):
+        if isinstance(lp, ast.For) and isinstance(lp.target, ast.Name) and lp.target.id == v and isinstance(lp.iter, ast.Name) and lp.iter.id in params:
+            return True
+    return False
 
 
 def h2(ctx, R):
